@@ -58,14 +58,27 @@ try:
         res["touched"] = touched
 finally:
     subprocess.run(["git", "-C", "/repo", "worktree", "remove", "--force", wt], capture_output=True)
-# run the property's check against /repo with the change applied
-subprocess.run(["git", "-C", "/repo", "apply", diff], check=True)
+# run the property's check against a scratch worktree with the change applied (VERIF_REPO makes the
+# driver build from that tree exactly as it would from /repo; /repo itself is not touched, so this can
+# run beside other work). --in-repo applies to /repo itself instead.
+if "--in-repo" in sys.argv:
+    subprocess.run(["git", "-C", "/repo", "apply", diff], check=True)
+    cenv = dict(os.environ)
+else:
+    wt2 = "/tmp/seedc-%s-%s" % (prop, n)
+    subprocess.run(["git", "-C", "/repo", "worktree", "remove", "--force", wt2], capture_output=True)
+    subprocess.run(["git", "-C", "/repo", "worktree", "add", "-q", "--detach", wt2, "HEAD"], check=True)
+    subprocess.run(["git", "apply", diff], cwd=wt2, check=True)
+    cenv = dict(os.environ, VERIF_REPO=wt2)
 try:
-    r = subprocess.run(["/verif/check", prop, "--tier", "quick", "--no-evidence"], capture_output=True, text=True, cwd="/verif")
+    r = subprocess.run(["/verif/check", prop, "--tier", "quick", "--no-evidence"], capture_output=True, text=True, cwd="/verif", env=cenv)
     res["check_exit"] = r.returncode
     res["check_lines"] = [l[:220] for l in r.stdout.splitlines() if l.startswith(("VIOLATION", "---", "INCONCLUSIVE"))][:8]
 finally:
-    subprocess.run(["git", "-C", "/repo", "checkout", "--", "."], check=True)
+    if "--in-repo" in sys.argv:
+        subprocess.run(["git", "-C", "/repo", "checkout", "--", "."], check=True)
+    else:
+        subprocess.run(["git", "-C", "/repo", "worktree", "remove", "--force", wt2], capture_output=True)
 ok = res.get("demo_passes_without_change") and res.get("applies") and res.get("demo_fails_with_change") and res.get("existing_tests_pass_with_change")
 res["confirmed"] = bool(ok)
 if ok:
